@@ -19,6 +19,8 @@ What is PROVED here (all unbounded: any number of upstream states, any axis size
     `C03_chain`           the same for a single upstream (chain).
   * `C03_history_noop`    `_add_state_history` changes nothing when no previous state's history meets a directly
                           connected root state (the situation of `NoSharedOrigin`).
+  * `C03_group_test`      (WfState/LemmasRoute.lean) with duplicate-free keys, the code's selection of a combiner group by
+                          dictionary inclusion = the reference's selection by restricting the job's coordinates.
   * witnesses (kernel evaluation of both interpreters): diamond (D2), descendant (D31), second-pass TypeError (D30),
     partial zip combiner (D29), all-previous-axes combiner (D33), later upstream through two fields (D34).
 What is NOT proved: `C03_full_statement` (false: `C03_full_statement_false`), and the workflow-level statement
